@@ -204,7 +204,7 @@ inline Structure gen_structure(uint64_t seed, const GenOpt& g) {
   for (int im = 0; im < g.nmodels; ++im) {
     int mnum = g.nmodels == 1 ? 1 : (im == 0 ? r.range(1, 3) : st.models.back().num + r.range(1, 5));
     // MODEL numbers beyond the four columns of the format description (the writer uses eight)
-    if (g.nmodels > 1 && im == 0 && r.chance(12)) mnum = r.pick(std::vector<int>{9998, 9999, 10000, 12345, 99999990});
+    if (g.nmodels > 1 && im == 0 && r.chance(12)) mnum = r.pick(std::vector<int>{9998, 9999, 10000, 12345, 99999900});
     if (g.same_models && im > 0) {
       Model copy = st.models[0];
       copy.num = mnum;
